@@ -287,17 +287,30 @@ def gen_fix(rng, n):
 
 def run_fix(inp):
     M = G.fm(inp["M"])
-    ev, evec = np.linalg.eig(M.T)
+    ev0, evec0 = np.linalg.eig(M.T)
     iso = H.Isometry(M.copy())
+    # the (repaired) code first replaces eig's basis of the fixed vectors by a Minkowski-orthogonal basis of
+    # ker(M - I) sorted by norm (svd + eigh: contracts, checked below); the ordering model sees the refined data
+    ev, evec = iso._refine_fixed_vectors(ev0, evec0)
     data = np.array(iso._fixpoint_data())
     norms = np.einsum("ki,ij,kj->k", evec.T, G.J(inp["dim"]), evec.T)
-    # which eigenvector is each returned row?
     order = []
     for row in data:
         hits = [k for k in range(len(ev)) if np.array_equal(row, evec[:, k])]
         order.append(hits)
+    # the refined fixed vectors: real columns with eigenvalue set to exactly 1 that are fixed by M
+    n = len(ev)
+    cand = [k for k in range(n) if ev[k] == 1 and np.abs(np.imag(evec[:, k])).max() == 0.0]
+    B = np.real(evec[:, cand]).T if cand else np.zeros((0, n))
+    gram = B @ G.J(inp["dim"]) @ B.T if cand else np.zeros((0, 0))
+    kdim = int(np.sum(np.linalg.svd(M.T - np.eye(n), compute_uv=False) < 1e-8))   # independent computation
     return {"abs": np.abs(ev).tolist(), "absim": np.abs(np.imag(ev)).tolist(), "norm_re": np.real(norms).tolist(),
-            "norm_im": np.imag(norms).tolist(), "order": order}
+            "norm_im": np.imag(norms).tolist(), "order": order,
+            "refine": {"count": len(cand), "kdim": kdim,
+                       "fixed": float(np.abs(B @ M - B).max()) if cand else 0.0,
+                       "offdiag": float(np.abs(gram - np.diag(np.diag(gram))).max()) if cand else 0.0,
+                       "min_norm": float(np.min(np.diag(gram))) if cand else None,
+                       "rank": int(np.linalg.matrix_rank(B, tol=1e-8)) if cand else 0}}
 
 
 def lean_fix(inp, obs):
@@ -314,6 +327,14 @@ def judge_fix(inp, obs, lr):
     e = drv_err(lr)
     if e:
         return e
+    rf = obs["refine"]
+    semisimple = inp["kind"] != "par"
+    if not (rf["rank"] == rf["kdim"] and rf["fixed"] <= 1e-8 and (not semisimple or (rf["count"] == rf["kdim"] and rf["offdiag"] <= 1e-8))):
+        return {"expected": "refinement contract: real fixed vectors spanning ker(M - I), Minkowski-orthogonal", "observed": rf,
+                "tags": dict(tags, what="refine contract")}
+    if inp["kind"] in ("rot", "par") and not (rf["count"] >= 1 and rf["min_norm"] <= 1e-8):
+        return {"expected": "elliptic / parabolic: a refined fixed vector lies in the closed light cone", "observed": rf,
+                "tags": dict(tags, what="refine in ball"), "property_failure": True}
     model = lr[0]["ok"]
     # a complex norm exactly on the threshold's real part would be decided by its imaginary part: not generated
     for pos, (hits, m) in enumerate(zip(obs["order"], model)):
@@ -336,13 +357,21 @@ def gen_o_reflect(rng, n):
                 if G.mink(d, d) > 0.3:
                     break
             ds.append((d * rng.choice([-1, 1]) * rng.uniform(0.3, 3)).tolist())
-        yield {"dim": dim, "shape": shape, "d": ds, "w": [rng.gauss(0, 1) for _ in range(dim + 1)]}
+        if rng.random() < 0.3:
+            shape = [dim + 1]          # exactly n+1 normals: needs the explicit keyword
+            ds = (ds * (dim + 1))[:dim + 1] if len(ds) < dim + 1 else ds[:dim + 1]
+            ds = [(np.array(x) * rng.uniform(0.5, 2) + np.array([0.0] + [rng.gauss(0, 0.2) for _ in range(dim)])).tolist() for x in ds]
+            ds = [x for x in ds if G.mink(np.array(x), np.array(x)) > 0.2]
+            if len(ds) < dim + 1:
+                shape, ds = [], [[0.1, 1.0, 0.3] + [0.0] * (dim - 2)]
+        yield {"dim": dim, "shape": shape, "d": ds, "w": [rng.gauss(0, 1) for _ in range(dim + 1)],
+               "normals_only": rng.random() < 0.7}
 
 
 def run_o_reflect(inp):
     dim, shape = inp["dim"], tuple(inp["shape"])
     d = np.array(inp["d"]).reshape(shape + (dim + 1,))
-    Hp = H.Hyperplane(d.copy())
+    Hp = H.Hyperplane(d.copy(), normals_only=True) if inp.get("normals_only") else H.Hyperplane(d.copy())
     out = {"shape_ok": list(Hp.shape) == list(shape)}
     if not out["shape_ok"]:
         out["shape"] = list(Hp.proj_data.shape)
@@ -382,8 +411,10 @@ def run_o_reflect(inp):
 
 def judge_o_reflect(inp, obs, lr):
     cnt = int(np.prod(inp["shape"])) if inp["shape"] else 1
-    square = bool(inp["shape"]) and inp["shape"][-1] == inp["dim"] + 1
-    tags = {"composite": bool(inp["shape"]), "dim": inp["dim"], "square_shape": square, "call_site": "Hyperplane.__init__"}
+    # without the keyword an array of exactly n+1 normals is (documented) read as one hyperplane's data
+    square = bool(inp["shape"]) and inp["shape"][-1] == inp["dim"] + 1 and not inp.get("normals_only")
+    tags = {"composite": bool(inp["shape"]), "dim": inp["dim"], "square_shape": square, "call_site": "Hyperplane.__init__",
+            "normals_only": bool(inp.get("normals_only"))}
     if "exc" in obs:
         return {"expected": "hyperplane(s) and reflection(s)", "observed": obs, "tags": dict(tags, exc=obs["exc"])}
     if not obs["shape_ok"]:
@@ -509,6 +540,15 @@ def run_o_fixed(inp):
     fp = np.array(iso.fixed_point().proj_data, dtype=float)
     pair = np.array(iso.fixed_point_pair().proj_data, dtype=float)
     out = {"M": M.tolist(), "fp": fp.tolist(), "pair": pair.tolist()}
+    # the documented options: no sorting by eigenvalue modulus (still a fixed point of the closed ball first)
+    fp2 = np.array(iso.fixed_point(max_eigval=False).proj_data, dtype=float)
+    pair2 = np.array(iso.fixed_point_pair(sort_eigvals=False).proj_data, dtype=float)
+
+    def _res(v):
+        v = v / np.linalg.norm(v)
+        w = v @ M
+        return [float(np.abs(np.outer(w, v) - np.outer(v, w)).max()), float(G.mink(v, v))]
+    out["plain"] = {"fp": _res(fp2), "pair0": _res(pair2[0]), "pair1": _res(pair2[1]), "pair_shape": list(pair2.shape)}
     if inp["kind"] == "lox":
         out["axis"] = np.array(iso.axis().proj_data, dtype=float).tolist()
         att = np.array([1.0, 1.0 if inp["t"] > 0 else -1.0] + [0.0] * (dim - 1)) @ g
@@ -547,6 +587,13 @@ def judge_o_fixed(inp, obs, lr):
         return {"expected": "reported point in the closed ball", "observed": {"norm": norm, "fp": obs["fp"]}, "tags": dict(tags, what="ball")}
     if kind == "rot" and not norm < -1e-9:
         return {"expected": "interior point for an elliptic isometry", "observed": {"norm": norm}, "tags": dict(tags, what="interior")}
+    pl = obs["plain"]
+    if not (pl["fp"][0] <= 1e-6 * scale and pl["fp"][1] <= 1e-6 and pl["pair0"][0] <= 1e-6 * scale and pl["pair0"][1] <= 1e-6
+            and (kind != "lox" or pl["pair1"][0] <= 1e-5 * scale)):
+        return {"expected": "fixed_point(max_eigval=False) / fixed_point_pair(sort_eigvals=False): fixed points, the first in the closed ball",
+                "observed": pl, "tags": dict(tags, what="unsorted option")}
+    if kind == "lox" and not (abs(pl["pair1"][1]) <= 1e-6):
+        return {"expected": "loxodromic, unsorted option: both reported points are the ideal endpoints", "observed": pl, "tags": dict(tags, what="unsorted pair")}
     if kind == "par" and not G.proj_equal(obs["fp"], obs["par_fix"], 1e-4):
         return {"expected": {"the ideal fixed point": obs["par_fix"]}, "observed": obs["fp"], "tags": dict(tags, what="parabolic")}
     if kind == "lox":
@@ -593,7 +640,7 @@ def gen_o_batch(rng, n):
             elif what == "mixed_reject":
                 kind = rng.choice(["refl", "refl", "rot", "lox", "id", "two_refl", "point_refl_neg"])
             else:
-                kind = rng.choice(["lox", "lox", "lox", "rot", "par"] if dim == 2 else ["lox"])
+                kind = rng.choice(["lox", "lox", "lox", "rot", "par"])
             units.append({"kind": kind, "g": g.tolist(), "a": rng.uniform(0.3, 2.8), "t": rng.uniform(0.3, 2.5) * rng.choice([-1, 1])})
         if what == "mixed_reject" and all(u["kind"] == "refl" for u in units):
             units[rng.randrange(k)]["kind"] = "rot"
@@ -683,6 +730,214 @@ def judge_o_batch(inp, obs, lr):
     return None
 
 
+# ---- reflections across subspaces given by an ideal basis (Subspace / Geodesic, not Hyperplane) --------------------
+def gen_o_subrefl(rng, n):
+    for _ in range(n):
+        dim = rng.choice([2, 2, 3, 4])
+        shape = rng.choice([[], [], [2], [3]])
+        cnt = int(np.prod(shape)) if shape else 1
+        units = []
+        for _ in range(cnt):
+            while True:
+                ks = np.array([G.fsphere(rng, dim) for _ in range(dim)])
+                T = ks[1:] - ks[0]
+                if np.linalg.svd(T, compute_uv=False)[-1] > 0.3:
+                    foot = ks[0] - ks[0] @ np.linalg.pinv(T) @ T
+                    if 0.15 < np.linalg.norm(foot) < 0.95:
+                        break
+            units.append(ks.tolist())
+        yield {"dim": dim, "shape": shape, "units": units, "kind": rng.choice(["subspace", "geodesic"]) if dim == 2 else "subspace",
+               "s": [rng.uniform(0.4, 2.5) for _ in range(dim)], "lowdim": rng.random() < 0.15 and dim >= 3}
+
+
+def run_o_subrefl(inp):
+    dim, shape = inp["dim"], tuple(inp["shape"])
+    K = np.array(inp["units"]).reshape(shape + (dim, dim))
+    data = np.concatenate([np.ones(shape + (dim, 1)), K], axis=-1) * np.array(inp["s"]).reshape((dim, 1))
+    if inp["lowdim"]:
+        try:
+            H.Subspace(data[..., :-1, :].copy()).reflection_across()
+            return {"lowdim": "accepted"}
+        except GeometryError:
+            return {"lowdim": "GeometryError"}
+    if inp["kind"] == "geodesic":
+        obj = H.Geodesic(H.IdealPoint(data[..., 0, :].copy()), H.IdealPoint(data[..., 1, :].copy()))
+    else:
+        obj = H.Subspace(data.copy())
+    R = np.array(obj.reflection_across().proj_data, dtype=float)
+    Jm = G.J(dim)
+    out = {"shape_ok": list(R.shape) == list(shape + (dim + 1, dim + 1))}
+    if not out["shape_ok"]:
+        out["shape"] = list(R.shape)
+        return out
+    out["invol"] = float(np.abs(R @ R - np.eye(dim + 1)).max())
+    out["form"] = float(np.abs(R @ Jm @ np.swapaxes(R, -1, -2) - Jm).max())
+    out["det"] = float(np.max(np.abs(np.linalg.det(R) + 1)))
+    out["wall"] = float(np.abs(data @ R - data).max())
+    d = np.array(obj.spacelike_complement().proj_data, dtype=float)
+    dn = d / np.linalg.norm(d, axis=-1, keepdims=True)
+    out["normal_spacelike"] = float(np.min(G.mink(dn, dn)))
+    out["normal_orth"] = float(np.abs(np.einsum("...ki,ij,...j->...k", data, Jm, dn)).max())
+    out["normal_neg"] = float(np.abs(np.einsum("...i,...ij->...j", dn, R) + dn).max())
+    return out
+
+
+def judge_o_subrefl(inp, obs, lr):
+    tags = {"dim": inp["dim"], "kind": inp["kind"], "composite": bool(inp["shape"]), "call_site": "Subspace.reflection_across"}
+    if "exc" in obs:
+        return {"expected": "reflection across the subspace", "observed": obs, "tags": dict(tags, exc=obs["exc"])}
+    if "lowdim" in obs:
+        if obs["lowdim"] != "GeometryError":
+            return {"expected": "no reflection across a subspace of codimension > 1 (GeometryError)", "observed": obs, "tags": dict(tags, what="lowdim")}
+        return None
+    if not obs["shape_ok"]:
+        return {"expected": "one reflection per subspace", "observed": obs.get("shape"), "tags": dict(tags, what="shape")}
+    if not (obs["invol"] <= 1e-7 and obs["form"] <= 1e-7 and obs["det"] <= 1e-7 and obs["wall"] <= 1e-7):
+        return {"expected": "involutive, orientation-reversing isometry fixing the ideal basis of the wall", "observed": obs, "tags": dict(tags, what="reflection")}
+    if not (obs["normal_spacelike"] > 1e-6 and obs["normal_orth"] <= 1e-7 and obs["normal_neg"] <= 1e-7):
+        return {"expected": "spacelike_complement: spacelike, orthogonal to the subspace, negated by the reflection", "observed": obs, "tags": dict(tags, what="normal")}
+    return None
+
+
+# ---- histories on isometries and hyperplanes: query, derive / overwrite, query again --------------------------------
+HI_OPS = ["query", "query", "left", "right", "setitem", "set", "flatten", "inv", "getitem"]
+
+
+def _hi_unit(rng, dim):
+    kind = rng.choice(["lox", "lox", "lox", "rot", "par"])
+    return {"kind": kind, "g": G.float_iso(rng, dim).tolist(), "a": rng.uniform(0.4, 2.7), "t": rng.uniform(0.4, 2.0) * rng.choice([-1, 1])}
+
+
+def _hi_mat(dim, u):
+    return _conj(np.array(u["g"]), float_std(dim, u["kind"], u["a"], u["t"]))
+
+
+def gen_o_hist_iso(rng, n):
+    for _ in range(n):
+        dim = rng.choice([2, 2, 3])
+        cnt = rng.choice([0, 0, 2, 3])
+        steps = [{"op": "query"}]
+        for _ in range(rng.randint(3, 6)):
+            op = rng.choice(HI_OPS)
+            st = {"op": op}
+            if op in ("left", "right", "setitem", "set"):
+                st["u"] = _hi_unit(rng, dim)
+                st["i"] = rng.randrange(max(cnt, 1))
+            elif op == "getitem":
+                st["i"] = rng.randrange(max(cnt, 1))
+            steps.append(st)
+        steps.append({"op": "query"})
+        yield {"dim": dim, "cnt": cnt, "units": [_hi_unit(rng, dim) for _ in range(max(cnt, 1))], "steps": steps,
+               "what": rng.choice(["isometry", "isometry", "hyperplane"])}
+
+
+def _fix_report(iso):
+    """what the library reports for every unit of a (possibly composite) isometry, judged against the CURRENT matrices"""
+    mats = np.array(iso.proj_data, dtype=float)
+    n = mats.shape[-1]
+    flat = mats.reshape((-1, n, n))
+    fp = np.real(np.array(iso.fixed_point().proj_data)).reshape((-1, n))
+    pair = np.real(np.array(iso.fixed_point_pair().proj_data)).reshape((-1, 2, n))
+    ax = np.real(np.array(iso.axis().proj_data)).reshape((-1, 2, n))
+    out = []
+    for j, M in enumerate(flat):
+        ev = np.linalg.eigvals(M)
+        amax = float(np.max(np.abs(ev)))
+        lox = bool(amax > 1.05)
+        unclear = bool(1 + 1e-4 < amax <= 1.05)
+
+        def res(v):
+            v = v / np.linalg.norm(v)
+            w = v @ M
+            mu = float(w @ v)
+            return float(np.abs(w - mu * v).max()), float(G.mink(v, v)), mu
+        r0 = res(fp[j])
+        rec = {"j": j, "lox": lox, "unclear": unclear, "fp_res": r0[0], "fp_norm": r0[1], "scale": float(np.abs(M).max())}
+        if lox:
+            ra, rb = res(pair[j, 0]), res(pair[j, 1])
+            rec.update({"pair_res": max(ra[0], rb[0]), "pair_norm": max(abs(ra[1]), abs(rb[1])), "mu": [abs(ra[2]), abs(rb[2])], "fp_mu": abs(r0[2]),
+                        "axis_same": bool(G.proj_equal(ax[j, 0], pair[j, 0], 1e-9) and G.proj_equal(ax[j, 1], pair[j, 1], 1e-9))})
+        out.append(rec)
+    return out
+
+
+def run_o_hist_iso(inp):
+    dim, cnt = inp["dim"], inp["cnt"]
+    mats = np.array([_hi_mat(dim, u) for u in inp["units"]])
+    log = []
+    if inp["what"] == "hyperplane":
+        # a wall, its reflection and the recovered wall along a history of moves
+        d = np.array([0.2, 1.0, 0.3] + [0.1] * (dim - 2))
+        Hp = H.Hyperplane(d.copy())
+        for k, st in enumerate(inp["steps"]):
+            if st["op"] in ("left", "right", "set", "setitem"):
+                g = H.Isometry(_hi_mat(dim, st["u"]))
+                Hp = g @ Hp if st["op"] != "set" else Hp
+                if st["op"] == "set":
+                    Hp.set(np.array((g @ Hp).proj_data, dtype=float).copy())
+            elif st["op"] == "query":
+                R = np.array(Hp.reflection_across().proj_data, dtype=float)
+                data = np.array(Hp.proj_data, dtype=float)
+                sc = float(max(1.0, np.abs(R).max()))
+                try:
+                    H2 = H.Hyperplane.from_reflection(H.Isometry(R.copy()))
+                    rt = bool(G.proj_equal(np.array(H2.spacelike_vector, dtype=float), data[0], 1e-7 * sc))
+                except GeometryError:
+                    # the acceptance threshold 1e-8 is absolute: a wall far from the origin has a reflection with large entries
+                    rt = sc > 20
+                log.append({"k": k, "op": "query", "wall_fixed": float(np.abs(data[1:] @ R - data[1:]).max() / (sc * max(1.0, np.abs(data).max()))),
+                            "normal_neg": float(np.abs(data[0] @ R + data[0]).max() / sc), "roundtrip": rt, "scale": sc})
+        return {"log": log}
+    iso = H.Isometry(mats.copy() if cnt else mats[0].copy())
+    for k, st in enumerate(inp["steps"]):
+        op = st["op"]
+        if op == "query":
+            log.append({"k": k, "op": op, "units": _fix_report(iso)})
+        elif op == "left":
+            iso = H.Isometry(_hi_mat(dim, st["u"])) @ iso
+        elif op == "right":
+            iso = iso @ H.Isometry(_hi_mat(dim, st["u"]))
+        elif op == "inv":
+            iso = iso.inv()
+        elif op == "flatten":
+            iso = iso.flatten_to_unit()
+        elif op == "getitem":
+            if len(iso.shape) >= 1:
+                iso = iso[st["i"] % iso.shape[0]:][:2]
+        elif op == "setitem":
+            if len(iso.shape) >= 1:
+                iso[st["i"] % iso.shape[0]] = H.Isometry(_hi_mat(dim, st["u"]))
+        elif op == "set":
+            if len(iso.shape) == 0:
+                iso.set(_hi_mat(dim, st["u"]))
+    return {"log": log}
+
+
+def judge_o_hist_iso(inp, obs, lr):
+    ops = [st["op"] for st in inp["steps"]]
+    tags = {"dim": inp["dim"], "composite": bool(inp["cnt"]), "what": inp["what"]}
+    if "exc" in obs:
+        return {"expected": "history runs", "observed": obs, "tags": dict(tags, exc=obs["exc"], ops=ops[:7])}
+    for e in obs["log"]:
+        before = [o for o in ops[:e["k"]] if o != "query"][-2:]
+        t = dict(tags, after=before, queried_before=ops[:e["k"]].count("query") > 0)
+        if inp["what"] == "hyperplane":
+            if not (e["wall_fixed"] <= 1e-6 and e["normal_neg"] <= 1e-6 and e["roundtrip"]):
+                return {"expected": "reflection across the CURRENT wall; from_reflection gives it back", "observed": e, "tags": t}
+            continue
+        for u in e["units"]:
+            # products of random elements are almost surely loxodromic or elliptic; the degenerate-eigenspace cases need dim >= 3 rotations
+            if u["unclear"] or u["scale"] > 1e4:
+                continue        # translation length below 0.05 or huge entries: classification / conditioning not reliable
+            if not (u["fp_res"] <= 1e-5 and u["fp_norm"] <= 1e-5):
+                return {"expected": "reported fixed point fixed by the CURRENT isometry, in the closed ball", "observed": u, "tags": dict(t, check="fixed_point")}
+            if u["lox"] and not (u["pair_res"] <= 1e-5 and u["pair_norm"] <= 1e-5 and u["mu"][0] > 1 + 1e-7 and u["mu"][1] < 1 - 1e-7
+                                 and u["fp_mu"] > 1 + 1e-7 and u["axis_same"]):
+                return {"expected": "loxodromic: the CURRENT isometry's two ideal endpoints, attracting first; axis() spanned by them", "observed": u,
+                        "tags": dict(t, check="pair")}
+    return None
+
+
 TRIANGLES = [(2, 3, 7), (2, 4, 5), (3, 3, 4), (2, 3, 8), (4, 4, 4), (2, 5, 5), (3, 4, 5), (2, 3, 12)]
 
 
@@ -759,6 +1014,14 @@ CLAUSES = [
            budget={"quick": 150, "thorough": 5000},
            what="array-valued isometries (1-8 units incl. exactly dim+1; standard, turned and arbitrarily conjugated members, both signs of the translation): "
                 "from_reflection / Geodesic.from_reflection per unit, batches containing a non-reflection rejected, fixed_point / fixed_point_pair per unit"),
+    Clause("subspace_reflection_oracle", "oracle", gen_o_subrefl, run_o_subrefl, judge_o_subrefl, site="hyperbolic.Subspace.reflection_across",
+           budget={"quick": 120, "thorough": 4000},
+           what="Subspace(ideal basis of n points) / Geodesic (dim 2), single and composite: reflection_across involutive, form preserving, det -1, fixes the ideal basis; "
+                "spacelike_complement spacelike, orthogonal, negated; lower-dimensional subspaces refused"),
+    Clause("history_oracle", "oracle", gen_o_hist_iso, run_o_hist_iso, judge_o_hist_iso, site="hyperbolic.Isometry._fixpoint_data",
+           budget={"quick": 150, "thorough": 5000},
+           what="histories on single and composite isometries: fixed_point / fixed_point_pair / axis, then L @ A, A @ L, inv, isos[i] = other, set, flatten_to_unit, "
+                "slicing, then the queries again, judged against the current matrices; the same for a hyperplane moved by isometries (reflection_across, from_reflection)"),
     Clause("coxeter_oracle", "oracle", gen_o_coxeter, run_o_coxeter, judge_o_coxeter, site="hyperbolic.Hyperplane.from_reflection",
            budget={"quick": 40, "thorough": 400}, what="reflections w a w^-1 of hyperbolic triangle-group representations: accepted, round trip, wall fixed"),
 ]
